@@ -196,10 +196,15 @@ def run(prop, tier, seed, only_replay=None):
 
     # triage violations
     known = load_known(prop)
-    new, known_hits = [], {}
+    new, known_hits, observations = [], {}, {}
     for v in ctx.violations:
         if v.get("machinery"):
             machinery.append(v["what"])
+            continue
+        if v.get("observation"):
+            # a disagreement between the specification and the code on behaviour that the property's statement does not
+            # cover (the model is wider than the listed properties): reported, never a VIOLATION, no effect on the exit code
+            observations.setdefault(v.get("sig", "?"), []).append(v)
             continue
         e = match_known(known, v.get("sig", ""), v.get("what", ""))
         if e is not None:
@@ -234,6 +239,8 @@ def run(prop, tier, seed, only_replay=None):
         lines.append("VIOLATION property=%s replay=%s" % (prop, path))
         lines.append("  sig=%s variant=%s count=%d :: %s" % (sig, vs[0].get("variant"), len(vs), vs[0]["what"][:600]))
 
+    for sig, vs in sorted(observations.items())[:10]:
+        lines.append("OBSERVATION (outside the statement of %s, not a violation): %s count=%d :: %s" % (prop, sig, len(vs), vs[0]["what"][:300]))
     wall = time.time() - t0
     level = getattr(check, "LEVEL", "model_checking")
     cov = dict(states=ctx.states, transitions=ctx.transitions,
@@ -245,6 +252,7 @@ def run(prop, tier, seed, only_replay=None):
                scenario_classes=ctx.classes, tlc_runs=ctx.tlc_runs, spec_to_code_scenarios=ctx.scenarios,
                code_to_spec_events=ctx.traces, impl_calls=ctx.calls,
                known_finding_hits={k: v[1] for k, v in known_hits.items()},
+               observations_outside_statement={k: len(v) for k, v in observations.items()},
                checker_cmd="python run_check.py %s --tier %s" % (prop, tier))
     cov.update(ctx.extra)
     ev = dict(property_id=prop, tier=tier, seed=int(seed), level=level, coverage=cov,
